@@ -188,6 +188,23 @@ func (fi *FuncInfo) FactsAt(at ssa.Instruction) []Fact {
 		for f := range fi.P.factsOf(fn)[cur.Block()] {
 			set[f] = true
 		}
+		// facts established by transparent helpers that were called (and returned)
+		// before this point on every path
+		for _, b := range fn.Blocks {
+			for _, in := range b.Instrs {
+				h := fi.P.helperCall(in)
+				if h == nil {
+					continue
+				}
+				before := (in.Block() == cur.Block() && fi.idx[in] < fi.idx[cur]) || (in.Block() != cur.Block() && in.Block().Dominates(cur.Block()))
+				if !before {
+					continue
+				}
+				for f := range fi.P.exitFacts(h, 0) {
+					set[f] = true
+				}
+			}
+		}
 		l, ok := fi.P.helpers[fn]
 		if !ok || fn == fi.Fn {
 			break
@@ -784,9 +801,14 @@ func (fi *FuncInfo) boolAllPaths(v ssa.Value, seen map[ssa.Value]bool) (bool, bo
 // the operand for that edge is evaluated with boolAllPaths and an infeasible
 // successor is not followed (flag variables such as `skip first time`).
 func (fi *FuncInfo) PathFromEdgePruned(pred, b *ssa.BasicBlock, target, barrier func(ssa.Instruction) bool) ssa.Instruction {
-	type st struct{ p, b *ssa.BasicBlock }
+	p := fi.P
+	type st struct {
+		from *ssa.BasicBlock
+		b    *ssa.BasicBlock
+		i    int
+	}
 	seen := map[st]bool{}
-	work := []st{{pred, b}}
+	work := []st{{pred, b, 0}}
 	for len(work) > 0 {
 		cur := work[len(work)-1]
 		work = work[:len(work)-1]
@@ -794,40 +816,56 @@ func (fi *FuncInfo) PathFromEdgePruned(pred, b *ssa.BasicBlock, target, barrier 
 			continue
 		}
 		seen[cur] = true
-		blocked := false
-		for _, in := range cur.b.Instrs {
+		fall := true
+		for i := cur.i; i < len(cur.b.Instrs); i++ {
+			in := cur.b.Instrs[i]
+			fn := in.Parent()
+			if _, isRet := in.(*ssa.Return); isRet && fn != fi.Fn {
+				if l, ok := p.helpers[fn]; ok {
+					work = append(work, st{nil, l.call.Block(), fi.idx[l.call] + 1})
+					fall = false
+					break
+				}
+			}
 			if target(in) {
 				return in
 			}
 			if barrier != nil && barrier(in) {
-				blocked = true
+				fall = false
+				break
+			}
+			if h := p.helperCall(in); h != nil {
+				work = append(work, st{nil, h.Blocks[0], 0})
+				fall = false
 				break
 			}
 		}
-		if blocked {
+		if !fall {
 			continue
 		}
 		succs := cur.b.Succs
-		if ifi, ok := cur.b.Instrs[len(cur.b.Instrs)-1].(*ssa.If); ok && len(succs) == 2 && cur.p != nil {
-			f := normFact(ifi.Cond, true)
-			if ph, ok := f.V.(*ssa.Phi); ok && ph.Block() == cur.b {
-				for i, pp := range cur.b.Preds {
-					if pp == cur.p {
-						ct, cf := fi.boolAllPaths(ph.Edges[i], map[ssa.Value]bool{})
-						if !f.Val {
-							ct, cf = cf, ct
-						}
-						if ct && !cf {
-							succs = []*ssa.BasicBlock{cur.b.Succs[0]}
-						} else if cf && !ct {
-							succs = []*ssa.BasicBlock{cur.b.Succs[1]}
+		if len(cur.b.Instrs) > 0 {
+			if ifi, ok := cur.b.Instrs[len(cur.b.Instrs)-1].(*ssa.If); ok && len(succs) == 2 && cur.from != nil {
+				f := normFact(ifi.Cond, true)
+				if ph, ok := f.V.(*ssa.Phi); ok && ph.Block() == cur.b {
+					for i, pp := range cur.b.Preds {
+						if pp == cur.from {
+							ct, cf := fi.boolAllPaths(ph.Edges[i], map[ssa.Value]bool{})
+							if !f.Val {
+								ct, cf = cf, ct
+							}
+							if ct && !cf {
+								succs = []*ssa.BasicBlock{cur.b.Succs[0]}
+							} else if cf && !ct {
+								succs = []*ssa.BasicBlock{cur.b.Succs[1]}
+							}
 						}
 					}
 				}
 			}
 		}
 		for _, s := range succs {
-			work = append(work, st{cur.b, s})
+			work = append(work, st{cur.b, s, 0})
 		}
 	}
 	return nil
@@ -860,4 +898,57 @@ func (fi *FuncInfo) edgeWhere(op token.Token, mx, my func(ssa.Value) bool) func(
 		cmp, ok := cmpOf(ifi.Cond, val)
 		return ok && cmp.match(op, mx, my)
 	}
+}
+
+// exitFacts: facts that hold whenever the (transparent) helper h returns
+// normally: the intersection over its return sites of the facts there.
+func (p *Prog) exitFacts(h *ssa.Function, depth int) map[Fact]bool {
+	if p.exitCache == nil {
+		p.exitCache = map[*ssa.Function]map[Fact]bool{}
+	}
+	if f, ok := p.exitCache[h]; ok {
+		return f
+	}
+	p.exitCache[h] = map[Fact]bool{} // recursion guard
+	var acc map[Fact]bool
+	facts := p.factsOf(h)
+	for _, b := range h.Blocks {
+		if b == h.Recover {
+			continue
+		}
+		for _, in := range b.Instrs {
+			if _, ok := in.(*ssa.Return); !ok {
+				continue
+			}
+			cur := map[Fact]bool{}
+			for f := range facts[b] {
+				cur[f] = true
+			}
+			if depth < 4 {
+				for _, b2 := range h.Blocks {
+					for _, in2 := range b2.Instrs {
+						if h2 := p.helperCall(in2); h2 != nil && (b2 == b || b2.Dominates(b)) {
+							for f := range p.exitFacts(h2, depth+1) {
+								cur[f] = true
+							}
+						}
+					}
+				}
+			}
+			if acc == nil {
+				acc = cur
+			} else {
+				for f := range acc {
+					if !cur[f] {
+						delete(acc, f)
+					}
+				}
+			}
+		}
+	}
+	if acc == nil {
+		acc = map[Fact]bool{}
+	}
+	p.exitCache[h] = acc
+	return acc
 }
